@@ -460,6 +460,7 @@ func (m *machine) Clone() *machine {
 // * matching channel ids
 // * no transition from final state
 // * version increase by 1
+// * valid allocation with one balance per channel participant
 // * preservation of balances
 // A StateMachine will additionally check the validity of the app-specific
 // transition whereas an ActionMachine checks each Action as being valid.
@@ -484,6 +485,11 @@ func (m *machine) ValidTransition(to *State) error {
 
 	if err := to.Valid(); err != nil {
 		return newError(fmt.Sprintf("invalid allocation: %v", err))
+	}
+
+	// Valid only guarantees that all assets have the same number of balances.
+	if n := to.NumParts(); n != len(m.params.Parts) {
+		return newError(fmt.Sprintf("expected balances for %d participants, got %d", len(m.params.Parts), n))
 	}
 
 	if err := AssertAssetsEqual(m.currentTX.Assets, to.Assets); err != nil {
